@@ -11,6 +11,7 @@ import (
 	"verif/harness/fieldchk"
 	"verif/harness/filterchk"
 	"verif/harness/histchk"
+	"verif/harness/optchk"
 	"verif/harness/readchk"
 	"verif/harness/vk"
 	"verif/harness/walkchk"
@@ -24,6 +25,7 @@ var checks = map[string]func(prop, tier string) int{
 	"C05": func(p, t string) int { return algochk.MainWith(p, t, filterchk.C05SubPhase) },
 	"C06": readchk.Main,
 	"C10": fieldchk.Main,
+	"C17": optchk.Main,
 	"C18": histchk.Main,
 	"C19": walkchk.Main,
 	"C11": ansichk.Main,
